@@ -136,6 +136,31 @@ CLAIMS = {
              "form with an existing mnemonic+arity is not emitted.",
         technique="Lean 4 proof (rational arithmetic, folds over line sequences) + differential correspondence through the CLI",
     ),
+    "C11": dict(
+        text="Theorems for all files prologue+start+body+end+epilogue (decoys of all kinds allowed, every marker style, both ISAs): "
+             "marked_exact, no_marker_whole, start_only/end_only, decoy_not_marker, marker recognition with bytes on one or several "
+             ".byte lines in any base, noise_transparent_select; for all --lines specs: lines_denotation, select_lines_exact; "
+             "three_ways_select; parse_file numbering is positional and strictly increasing. Marker constants regenerated from "
+             "marker_utils.py. Tie: generated files through the real parsers + reduce_to_section, --lines strings through "
+             "get_line_range; end-to-end metamorphic runs (marked / --lines / body alone / noise insertions / beyond line 1000) on "
+             "shipped kernels compared on parsed numbers.",
+        design="5/C11 + notes/C11.md",
+        note=COMMON_NOTE + "The analysis-level statements (three_ways_same, noise_transparent on numbers) are decided by the metamorphic runs on "
+             "the implementation, not by a theorem (they need the whole analysis model).",
+        technique="Lean 4 proof (induction over line lists, marker automaton) + differential correspondence + metamorphic end-to-end runs",
+    ),
+    "C13": dict(
+        text="Theorems for all analyses, port counts and magnitudes: fmt2/fmtFixed round trips, shown_nearest/tie_even (half-even on the "
+             "exact binary value), cells_roundtrip/row_roundtrip (cells never merge or truncate), report_roundtrip "
+             "(parseTable (combinedView a) = view a), cells/sums agree with the dict at the shown precision, unknown_logic, "
+             "lcd_selection (first maximal entry), lcdlist_roundtrip/complete, warning_logic. Tie: translator (DEFAULT_ARCHS, 100-line "
+             "threshold, symbols) + byte-for-byte comparison of real Frontend / osaca.inspect text with the model renderer and of "
+             "full_analysis_dict with the model dict; oracle: parse the real report back and compare with the real dict.",
+        design="5/C13 + notes/C13.md",
+        note=COMMON_NOTE + "Not modelled: detect_ISA, str(float) repr, header/symbol-map blocks (tied by text comparison only); totals >= 1000 in a "
+             "4-wide column are read as tokens.",
+        technique="Lean 4 proof (formatter/parser round trip by induction over cells) + byte-exact differential correspondence",
+    ),
 }
 
 REASON_TODO = "no theorem + checked tie built yet in this round; planned per DESIGN.md section 5 (not claimed until both exist)"
